@@ -4,7 +4,7 @@ store-free and read only through the buffer argument; every compare consumed; re
 constants are {0, non-zero}."""
 import re
 from common import Report, AnalysisBroken
-import provenance, cast, cbuild
+import provenance, cast, cbuild, irrules
 from provenance import base_tag
 from asmflow import tag_name
 
@@ -124,6 +124,71 @@ def check_base(rep):
     R.check(len(txt) == 1 and cast.strip(txt[0]['inner'][0]).get('referencedDecl', {}).get('name') == 'a', 'mem/mem_zero_detect_base.c:%d' % cast.line_of(r), 'result must be decided by a == 0')
 
 
+def check_wordloop_width(rep, mod):
+    """the portable detector looks at the buffer one machine word at a time: what it loads per step has to be as wide as the step"""
+    R = rep.rule('R-WORDLOOP-WIDTH', 'mem_zero_detect_base: in the word loop the cursor advances by S bytes per iteration (constant GEP on the cursor phi) and the value tested is read through the cursor by a load of '
+                 'exactly S bytes - followed through the inlined-at-source helpers of include/unaligned.h (read-width summary of each helper: the widest load through its pointer parameter, callees included): no '
+                 'byte of a word is skipped by the test', floor=1, unit='word loops')
+    f = mod.funcs.get('mem_zero_detect_base')
+    if f is None:
+        raise AnalysisBroken('mem_zero_detect_base not found')
+    memo = {}
+
+    def width(fn, pidx, stack=()):
+        """bytes read starting at parameter pidx of fn (widest load at offset 0, through callees)"""
+        fn = fn.lstrip('@')
+        key = (fn, pidx)
+        if key in memo:
+            return memo[key]
+        g = mod.funcs.get(fn)
+        if g is None or key in stack:
+            return None
+        P = irrules.prov(mod, g)
+        w = None
+        for i in g.all_insns():
+            if i.op == 'load' and P.atoms(i.ops[0]) == {('param', pidx, 0)}:
+                m = re.match(r'^i(\d+)$', i.ty or '')
+                if m:
+                    w = max(w or 0, int(m.group(1)) // 8)
+            elif i.op == 'call' and i.callee and not i.callee.startswith('llvm.dbg'):
+                for k, (_, v) in enumerate(i.args or []):
+                    if v.startswith('%') and P.atoms(v) == {('param', pidx, 0)}:
+                        cw = width(i.callee, k, stack + (key,))
+                        if cw is not None:
+                            w = max(w or 0, cw)
+        memo[key] = w
+        return w
+    n = 0
+    for phi in [i for i in f.all_insns() if i.op == 'phi' and (i.ty or '') == 'i8*']:
+        # the cursor: one incoming value is a constant GEP on the phi itself
+        stride = None
+        for v, _ in phi.extra['incoming']:
+            d = f.defs.get(v)
+            if d is not None and d.op == 'getelementptr' and d.ops[0] == phi.dst:
+                idx = [x.split(' ')[-1] for x in (d.extra or {}).get('idx', [])]
+                if len(idx) == 1 and re.match(r'^\d+$', idx[0]):
+                    stride = int(idx[0])
+        if not stride or stride < 2:
+            continue
+        reads = []
+        for i in f.all_insns():
+            if i.op == 'call' and i.callee and any(v == phi.dst for _, v in (i.args or [])):
+                k = [j for j, (_, v) in enumerate(i.args) if v == phi.dst][0]
+                reads.append((i, width(i.callee, k)))
+            elif i.op == 'load' and irrules._strip(f, i.ops[0]) == phi.dst:
+                m = re.match(r'^i(\d+)$', i.ty or '')
+                reads.append((i, int(m.group(1)) // 8 if m else None))
+        if not reads:
+            continue
+        n += 1
+        R.instance()
+        i, w = max(reads, key=lambda x: x[1] or 0)
+        R.check(w == stride, mod.where(f, i), 'mem_zero_detect_base steps %d bytes per iteration but tests only %s bytes read at the cursor: non-zero bytes in the rest of each word go unnoticed' % (stride, w),
+                key='R-WORDLOOP-WIDTH|%d' % stride, sample='step %d bytes, load %s bytes' % (stride, w))
+    if n == 0:
+        raise AnalysisBroken('mem_zero_detect_base: no word loop (cursor advanced by a constant >= 2 and read through) found')
+
+
 def main(tier):
     rep = Report('C20', tier, level='other')
     rep.undecided = UNDECIDED
@@ -132,6 +197,8 @@ def main(tier):
                        'The sse/avx/avx2/base variants are never executed by the suite on this host.')
     rep.trusted = ['clang AST', 'nasm/objdump decoding', 'ASMFLOW transfer functions (fail-closed)']
     rep.attempt(check_base, rep)
+    import llir
+    rep.attempt(check_wordloop_width, rep, llir.library('default'))
     R = rep.rule('P-MEM-STORE', 'zero-detect kernels store nothing outside their stack frame and load only through the buffer argument', floor=4, unit='kernels')
     RD = rep.rule('L-DEADCMP-MEM', 'every flag-setting compare is consumed', floor=4, unit='kernels')
     RR = rep.rule('R-RET-MEM', 'return value is the constant 0 or a non-zero constant on every path', floor=4, unit='kernels')
